@@ -255,6 +255,7 @@ VARIANTS = {
     'insufficient_margin': {'poor': True},
     'spot_other_exchange_abort': {'exch_type': 'spot', 'name': 'Spot Ex', 'abort_at': 1},
     'abort_after_entry': {'abort_at': 0, 'abort_hook': 'after'},
+    'other_exchange_abort': {'name': 'Other Exchange', 'abort_at': 2},
     'second_entry_rejected': {'two_entries': True},
 }
 
@@ -265,7 +266,7 @@ def _jobs(tier):
     def add(vn, **kw):
         jobs.append(Job('abb_%s_%s' % (vn, '_'.join(str(x) for x in kw.values())), h_abb, dict(variant=VARIANTS[vn], **kw),
                         {'fork_per_path': True, 'max_decisions': 4000}))
-    names = list(VARIANTS) if tier != 'quick' else ['same', 'other_fee_leverage', 'spot_same_name', 'other_exchange', 'warmup', 'abort_step2', 'insufficient_margin', 'abort_after_entry', 'second_entry_rejected']
+    names = list(VARIANTS) if tier != 'quick' else ['same', 'other_fee_leverage', 'spot_same_name', 'other_exchange', 'warmup', 'abort_step2', 'insufficient_margin', 'abort_after_entry', 'second_entry_rejected', 'other_exchange_abort']
     for vn in names:
         add(vn, probe_type='futures')
     add('same', probe_type='spot')
